@@ -410,12 +410,99 @@ def run_diag(ctx, cases, batch):
                               cls=cls, conforms=conforms, stream="diag")
 
 
+# ------------------------------------------------------------------ TypedDict (outside the Lean term language)
+TD_FIELD_TYPES = [("typed", G.INT), ("typed", G.STR), ("typed", G.FLOAT), ("union", [("typed", G.INT), ("known", ("none",))]),
+                  ("generic", G.LIST, [("typed", G.INT)]), ("known", ("str", "a")), ("typed", G.BOOL)]
+
+
+def td_member(py, spec, extra_ok=True):
+    """Reference membership in a TypedDict given as {key: (type term, required)} (decision (iv): open TypedDicts
+    admit extra string keys)."""
+    if type(py) is not dict:
+        return False
+    for k, (t, req) in spec.items():
+        if k not in py:
+            if req:
+                return False
+        elif not G.member(py[k], t):
+            return False
+    return all(isinstance(k, str) for k in py)
+
+
+def td_stream(ctx):
+    """is_assignable(o, TD) == member(o, TD) for generated TypedDicts, bare and nested; implementation-only search."""
+    import typing
+    from typing_extensions import NotRequired, Required, TypedDict
+    from pyanalyze.runtime import is_assignable
+    rng = ctx.rng
+    n_td = ctx.n(40, 300)
+    for ti in range(n_td):
+        keys = rng.sample(["a", "b", "c", "d"], rng.choice([1, 2, 2, 3]))
+        total = rng.random() < 0.6
+        spec, fields = {}, {}
+        for k in keys:
+            t = rng.choice(TD_FIELD_TYPES)
+            flip = rng.random() < 0.3
+            req = total != flip
+            spec[k] = (t, req)
+            ann = ty_to_typing(t)
+            fields[k] = (NotRequired[ann] if total else Required[ann]) if flip else ann
+        TD = TypedDict("TD%d" % ti, fields, total=total)
+        for _ in range(ctx.n(12, 30)):
+            # objects: mostly near-members
+            o = {}
+            for k, (t, req) in spec.items():
+                r = rng.random()
+                if r < (0.9 if req else 0.6):
+                    r2 = rng.random()
+                    if r2 < 0.7:
+                        o[k] = V.obj_to_py(G.gen_obj_for(rng, t))
+                    elif r2 < 0.85:
+                        o[k] = None
+                    else:
+                        o[k] = V.obj_to_py(rng.choice(G.SCALARS))
+            r = rng.random()
+            if r < 0.12:
+                o["zz"] = 1
+            elif r < 0.17:
+                o[1] = 2
+            wrap = rng.choice(["bare", "bare", "list", "optional", "tuple"])
+            if wrap == "bare":
+                T, obj, mem = TD, o, td_member(o, spec)
+            elif wrap == "list":
+                other = dict(o)
+                T, obj, mem = typing.List[TD], [o, other], td_member(o, spec)
+            elif wrap == "optional":
+                if rng.random() < 0.2:
+                    T, obj, mem = typing.Optional[TD], None, True
+                else:
+                    T, obj, mem = typing.Optional[TD], o, td_member(o, spec)
+            else:
+                T, obj, mem = typing.Tuple[int, TD], (1, o), td_member(o, spec)
+            ctx.count(1, typeddict=1, **{"td_member_%d" % mem: 1})
+            desc = {"type": "%s of TypedDict%s total=%s" % (wrap, {k: (ty_src(t), r_) for k, (t, r_) in spec.items()}, total),
+                    "object": repr(obj)}
+            ctx.nontriv("td|" + desc["type"] + "|" + desc["object"])
+            try:
+                ia = bool(is_assignable(obj, T))
+            except Exception as e:
+                ia = "EXC:%s" % type(e).__name__
+            if ia != mem:
+                cls = None
+                if mem is False and ia is True and any(not isinstance(k, str) for k in o) and \
+                        all((k in o and G.member(o[k], t)) or (k not in o and not req) for k, (t, req) in spec.items()):
+                    cls = "typedDictNonStrKey"
+                ctx.candidate(desc, "is_assignable = %s but member = %s (TypedDict)" % (ia, mem), cls=cls, conforms=True, stream="typeddict")
+
+
 def run(ctx):
     evaluate(ctx, corpus_cases() + gen_cases(ctx))
+    td_stream(ctx)
 
 
 def run_impl_only(ctx):
     evaluate(ctx, corpus_cases() + gen_cases(ctx), with_model=False)
+    td_stream(ctx)
 
 
 def replay(ctx, data):
